@@ -184,10 +184,15 @@ func (ctrlEncodeStream) Oracle(c Case, impl string) (bool, string, string) {
 	br.SetControls(real, real)
 	sd := req.NewSearchDoneResponse(gldap.WithResponseCode(0))
 	sd.SetControls(real)
-	for _, rb := range [][]byte{gldap.VerifResponseBytes(br), gldap.VerifResponseBytes(sd)} {
+	for i, rb := range [][]byte{gldap.VerifResponseBytes(br), gldap.VerifResponseBytes(sd)} {
 		p, err := ber.DecodePacketErr(rb)
 		if err != nil || len(p.Children) != 3 {
 			return false, "response with controls is not a 3-element LDAPMessage", c.Kind + "/response-shape"
+		}
+		if want := 2 - i; len(p.Children[2].Children) != want {
+			// the bind response carries the control twice: every control set must arrive, in order, also when
+			// several share an OID
+			return false, fmt.Sprintf("%d controls set on the response, %d on the wire", want, len(p.Children[2].Children)), c.Kind + "/response-count"
 		}
 		for _, child := range p.Children[2].Children {
 			if ctl.Kind == "behera" && ctl.Expire == -1 && ctl.Grace == -1 && ctl.Error == -1 {
